@@ -49,6 +49,8 @@ def run(rep, tier, seed):
             rep.violation("amount-vs-change", bad, {"program": streams.ser(r["prog"]), "failure": bad,
                                                     "protocol": r["lines"], "impl": r["impl"]})
         rep.sample({"kb": streams.ser(r["prog"]["kb"]), "ops": r["prog"]["ops"][:6]}, limit=2)
+    import checks.c13_fol as f
+    f.run(rep, tier, seed)
     if first_dis is not None and not rep.violations:
         rep.extra["first_disagreement"] = {"program": streams.ser(first_dis["prog"]), "at": first_dis["disagreements"][:3]}
 
